@@ -173,7 +173,9 @@ bool segmentShapeIntersect(const Point& e1, const Point& e2, const Point& s1,
         // Basic intersection of segments.
         return true;
     }
-    else if ( (((s2 == e1) || pointOnLine(s1, s2, e1)) && 
+
+    bool touches = false;
+    if ( (((s2 == e1) || pointOnLine(s1, s2, e1)) &&
                (vecDir(s1, s2, e2) != 0)) 
               ||
               (((s2 == e2) || pointOnLine(s1, s2, e2)) &&
@@ -183,6 +185,25 @@ bool segmentShapeIntersect(const Point& e1, const Point& e2, const Point& s1,
         // allow this once, but the second one blocks visibility.  Otherwise
         // shapes butted up against each other could have visibility through
         // shapes.
+        touches = true;
+    }
+    else if (pointOnLine(e1, e2, s2) && (vecDir(e1, e2, s1) != 0))
+    {
+        // The corner s2 of the shape lies strictly inside e1-e2, and e1-e2
+        // does not run along this side of the shape.  segmentIntersect()
+        // ignores sides that end on the line of e1-e2, so a line through
+        // two corners of a shape (e.g., along the diagonal of a square)
+        // would not be noticed.  Count the corner like an intersection at
+        // an endpoint: a line that just touches one corner of a convex
+        // shape, or runs along one of its sides, does this once (each
+        // corner is s2 for exactly one side, and the far corner of a side
+        // the line runs along has s1 on the line), while a line that passes
+        // through the inside of the shape does it twice.
+        touches = true;
+    }
+
+    if (touches)
+    {
         if (seenIntersectionAtEndpoint)
         {
             return true;
